@@ -559,3 +559,111 @@ pub fn show_bytes(b: &[u8]) -> J {
         Err(_) => json!({"bytes": b, "lossy": String::from_utf8_lossy(b)}),
     }
 }
+
+// ---------------------------------------------------------------------------------------------
+// A thread-caching allocator for the check binaries.
+//
+// The checks execute 10^7..10^9 tiny library calls on 16 threads, each allocating a handful
+// of small blocks. On this sandbox the threads were observed (gdb) to serialise on glibc's
+// `main_arena` lock (40 s of system time for 6 s of wall clock); small blocks are therefore
+// served from per-thread size-class free lists carved out of chunks obtained from the system
+// allocator. Large blocks go to the system allocator unchanged. This only affects the speed
+// of the harness, never what the library under test computes.
+
+use std::alloc::{GlobalAlloc, Layout, System};
+use std::cell::UnsafeCell;
+
+const AC_MAX: usize = 2048;
+const AC_CLASSES: usize = AC_MAX / 16;
+const AC_CHUNK: usize = 1 << 20;
+
+struct AcLocal {
+    bins: [*mut u8; AC_CLASSES],
+    bump: *mut u8,
+    end: *mut u8,
+}
+
+thread_local! {
+    static AC_LOCAL: UnsafeCell<AcLocal> = const {
+        UnsafeCell::new(AcLocal { bins: [std::ptr::null_mut(); AC_CLASSES], bump: std::ptr::null_mut(), end: std::ptr::null_mut() })
+    };
+}
+
+pub struct ThreadCache;
+
+#[inline]
+fn ac_class(l: &Layout) -> Option<usize> {
+    if l.size() <= AC_MAX && l.align() <= 16 {
+        Some((l.size().max(1) + 15) / 16 - 1)
+    } else {
+        None
+    }
+}
+
+unsafe impl GlobalAlloc for ThreadCache {
+    #[inline]
+    unsafe fn alloc(&self, l: Layout) -> *mut u8 {
+        match ac_class(&l) {
+            None => System.alloc(l),
+            Some(c) => {
+                let size = (c + 1) * 16;
+                let r = AC_LOCAL.try_with(|loc| {
+                    let loc = &mut *loc.get();
+                    let head = loc.bins[c];
+                    if !head.is_null() {
+                        loc.bins[c] = *(head as *mut *mut u8);
+                        return head;
+                    }
+                    if (loc.end as usize) - (loc.bump as usize) < size {
+                        let chunk = System.alloc(Layout::from_size_align_unchecked(AC_CHUNK, 16));
+                        if chunk.is_null() {
+                            return chunk;
+                        }
+                        loc.bump = chunk;
+                        loc.end = chunk.add(AC_CHUNK);
+                    }
+                    let p = loc.bump;
+                    loc.bump = p.add(size);
+                    p
+                });
+                match r {
+                    Ok(p) => p,
+                    // thread-local storage is gone (thread teardown): a block of the full class size
+                    Err(_) => System.alloc(Layout::from_size_align_unchecked(size, 16)),
+                }
+            }
+        }
+    }
+
+    #[inline]
+    unsafe fn dealloc(&self, p: *mut u8, l: Layout) {
+        match ac_class(&l) {
+            None => System.dealloc(p, l),
+            Some(c) => {
+                // during thread teardown the block is leaked
+                let _ = AC_LOCAL.try_with(|loc| {
+                    let loc = &mut *loc.get();
+                    *(p as *mut *mut u8) = loc.bins[c];
+                    loc.bins[c] = p;
+                });
+            }
+        }
+    }
+
+    #[inline]
+    unsafe fn realloc(&self, p: *mut u8, l: Layout, new_size: usize) -> *mut u8 {
+        let nl = Layout::from_size_align_unchecked(new_size, l.align());
+        match (ac_class(&l), ac_class(&nl)) {
+            (None, None) => System.realloc(p, l, new_size),
+            (Some(a), Some(b)) if a == b => p,
+            _ => {
+                let q = self.alloc(nl);
+                if !q.is_null() {
+                    std::ptr::copy_nonoverlapping(p, q, l.size().min(new_size));
+                    self.dealloc(p, l);
+                }
+                q
+            }
+        }
+    }
+}
